@@ -25,6 +25,7 @@ THEOREMS = [
     "timestep_invariant",
     "free_refresh_spec",
     "classification_meaning",
+    "free_refresh_consistent",
 ]
 
 RULE = ("generic samplers over four interaction families (two-site exchange-type rings/chains, Ising-symmetric diagonal + "
